@@ -80,6 +80,47 @@ def ast_node(n):
     return decl(n)
 
 
+def dump_cst(text):
+    """The parse tree exactly as Parser.parse() obtains it (same lexer/parser set-up), plus the listener's errors."""
+    from antlr4 import InputStream, CommonTokenStream
+    from antlr4.error.ErrorListener import ErrorListener
+    from antlr4.tree.Tree import ErrorNode, TerminalNode
+    from pydjinni.parser.grammar.IdlLexer import IdlLexer
+    from pydjinni.parser.grammar.IdlParser import IdlParser
+    errs = []
+    class L(ErrorListener):
+        def syntaxError(self, recognizer, offendingSymbol, line, column, msg, e):
+            errs.append([line, column])
+    lexer = IdlLexer(InputStream(text))
+    lexer.removeErrorListeners(); lexer.addErrorListener(L())
+    parser = IdlParser(CommonTokenStream(lexer))
+    parser.removeErrorListeners(); parser.addErrorListener(L())
+    tree = parser.idl()
+    def node(n):
+        if isinstance(n, TerminalNode):
+            t = n.symbol
+            ty = 'EOF' if t.type == -1 else (IdlParser.symbolicNames[t.type] if 0 <= t.type < len(IdlParser.symbolicNames) else str(t.type))
+            return {'t': ty, 'x': t.text if t.text is not None else '', 'l': t.line, 'c': t.column, 'err': isinstance(n, ErrorNode)}
+        st, sp = n.start, n.stop
+        return {'r': IdlParser.ruleNames[n.getRuleIndex()],
+                's': None if st is None else [st.line, st.column],
+                'e': None if sp is None else [sp.line, sp.column, len(sp.text) if sp.text is not None else 0],
+                'c': [node(ch) for ch in (n.children or [])]}
+    return {'tree': node(tree), 'syntax': errs}
+
+
+def dump_extern(path):
+    from pydjinni import API
+    from pydjinni.parser.resolver import Resolver
+    r = Resolver(API().external_type_model)
+    try:
+        r.load_external(Path(path))
+    except BaseException as e:  # noqa
+        return {'bad': True}
+    return {'bad': False, 'types': [{'name': str(t.name), 'ns': [str(x) for x in t.namespace], 'prim': str(t.primitive.value),
+                                     'params': list(t.params), 'pos': pos(t.position)} for t in r.registry.values()]}
+
+
 def run_case(case):
     root = tempfile.mkdtemp(prefix='pdv-front-')
     cwd = os.getcwd()
@@ -92,6 +133,13 @@ def run_case(case):
         for rel in case.get('dirs', []):
             (Path(root) / rel).mkdir(parents=True, exist_ok=True)
         os.chdir(Path(root) / case.get('cwd', '.'))
+        csts = {}
+        if 'cst' in case.get('want', []):
+            for rel, text in case['files'].items():
+                if rel.endswith('.yaml') or rel.endswith('.yml'):
+                    csts[rel] = {'extern': dump_extern(str(Path(root) / rel))}
+                else:
+                    csts[rel] = dump_cst(text)
         from pydjinni import API
         opts = case.get('options') or DEFAULT_OPTS
         out = {}
@@ -119,6 +167,8 @@ def run_case(case):
                 out['ast'] = [ast_node(n) for n in (src.ast or [])]
             if 'imports' in want:
                 out['imports'] = [{'path': relpath(f.path, root), 'pos': pos(f.position)} for f in src.file_imports]
+        if csts:
+            out['cst'] = csts
         return out
     finally:
         os.chdir(cwd)
